@@ -95,7 +95,15 @@ def history_images(shapes, runner, tl, seed, tier):
     hres = vlib.run_model(runner, tl + hl, shards=16)
     lines, meta = [], {}
     per_hist = 1 if tier == 'quick' else 2
-    for l in hl:
+    # bounded volume: the histories that edit an item in place first, then a seeded sample of the others
+    ed = [l for l in hl if '(edit' in l]
+    rest = [l for l in hl if '(edit' not in l]
+    rng.shuffle(ed)
+    rng.shuffle(rest)
+    budget = 30000 if tier == 'quick' else 120000
+    for l in ed + rest:
+        if len(lines) > budget:
+            break
         f = l.split(' ')
         cid, sid, off = f[1], f[2], int(f[3])
         m = hres.get(cid)
@@ -114,20 +122,20 @@ def history_images(shapes, runner, tl, seed, tier):
             first = min(i for i, o in enumerate(hm[cid]['ops']) if o.startswith('(edit'))
             later = [st['buf'].replace('??', '5a') for st in steps[first + 1:] if st.get('val') == 'ok' and st.get('buf')
                      and len(st['buf']) <= 400]
-            picks = list(dict.fromkeys(picks + later[:3 if tier == 'quick' else 8]))
+            picks = list(dict.fromkeys(picks + later[:3 if tier == 'quick' else 4]))
         for k, bh in enumerate(picks):
             img = bytes.fromhex(bh)
             base = '%s.I%d' % (cid, k)
             lines.append('M %s %s 0 %s' % (base, sid, cs.hexs(img)))
             meta[base] = {'op': 'M', 'shape': sid, 'off': 0, 'len': len(img), 'kind': 'histimage'}
             pos = list(range(len(img)))
-            npos = (24 if edited else 10) if tier == 'quick' else 40
+            npos = (24 if edited else 10) if tier == 'quick' else (32 if edited else 16)
             if len(pos) > npos:
                 pos = pos[:npos // 2] + rng.sample(pos[npos // 2:], npos // 2) if edited else rng.sample(pos, npos)
             for p in sorted(pos):
                 vals = set(cs.MUT_VALUES) | {(img[p] + 1) & 255, (img[p] - 1) & 255}
                 vals.discard(img[p])
-                for v in rng.sample(sorted(vals), 2 if tier == 'quick' else 4):
+                for v in rng.sample(sorted(vals), 2 if tier == 'quick' else 3):
                     mut = bytearray(img)
                     mut[p] = v
                     c2 = '%s.B%d_%02x' % (base, p, v)
